@@ -25,10 +25,12 @@ package main
 // op list it expects.
 import (
 	"bufio"
+	"bytes"
 	"crypto/sha256"
 	"encoding/hex"
 	"encoding/json"
 	"fmt"
+	"io"
 	"math/rand"
 	"net/http"
 	"net/http/httptest"
@@ -64,6 +66,8 @@ type crashStats struct {
 	Duplicate     int            `json:"snapshots_duplicate"`
 	ObsRequests   int            `json:"observation_requests"`
 	NotJudged     int            `json:"not_judged_restores_named_blob"`
+	Probes        int            `json:"continuation_probes"`
+	ProbesInit    int            `json:"continuation_probes_inside_repo_init"`
 	Monitors      map[string]int `json:"monitor_hits"`
 	Kinds         map[string]int `json:"points_by_call"`
 	RecoveredKind map[string]int `json:"recovered_by_request_kind"`
@@ -81,6 +85,7 @@ type Crash struct {
 	tagsSeen map[string]map[string]bool
 	subjSeen map[string]map[string]bool
 	cuts     string
+	initEnd  int // index of the last call of the repository initialisation within the current request (-1: none)
 }
 
 // ---------------------------------------------------------------- directory copies
@@ -164,7 +169,15 @@ type universe struct {
 }
 
 func (c *Crash) serve(srv *olareg.Server, method, path string, hdr map[string][]string) (int, http.Header, []byte) {
-	req := httptest.NewRequest(method, path, nil)
+	return c.serveBody(srv, method, path, hdr, nil)
+}
+
+func (c *Crash) serveBody(srv *olareg.Server, method, path string, hdr map[string][]string, reqBody []byte) (int, http.Header, []byte) {
+	var rdr io.Reader
+	if reqBody != nil {
+		rdr = bytes.NewReader(reqBody)
+	}
+	req := httptest.NewRequest(method, path, rdr)
 	for k, vs := range hdr {
 		for _, v := range vs {
 			req.Header.Add(k, v)
@@ -193,12 +206,23 @@ var accAll = map[string][]string{"Accept": {types.MediaTypeOCI1Manifest, types.M
 // observeDir opens a fresh server on dir (which it may modify: the directory is a throw-away copy) and reads the
 // surface of every repository of the universe
 func (c *Crash) observeDir(dir string, u *universe) map[string]*repoObs {
-	h := c.h
 	verifvfs.Pause(true)
 	defer verifvfs.Pause(false)
-	conf := h.buildConf(h.confToks)
+	srv := c.openSrv(dir)
+	out := c.observeSrv(srv, u)
+	_ = srv.Close()
+	return out
+}
+
+// openSrv: a fresh server with the configuration of the history on another directory
+func (c *Crash) openSrv(dir string) *olareg.Server {
+	conf := c.h.buildConf(c.h.confToks)
 	conf.Storage.RootDir = dir
-	srv := olareg.New(conf)
+	return olareg.New(conf)
+}
+
+func (c *Crash) observeSrv(srv *olareg.Server, u *universe) map[string]*repoObs {
+	h := c.h
 	out := map[string]*repoObs{}
 	for _, repo := range u.repos {
 		o := &repoObs{tags: map[string]string{}, mans: map[string]bool{}, blobs: map[string]bool{}, refs: map[string][]string{}}
@@ -267,7 +291,6 @@ func (c *Crash) observeDir(dir string, u *universe) map[string]*repoObs {
 			}
 		}
 	}
-	_ = srv.Close()
 	return out
 }
 
@@ -639,6 +662,7 @@ func (c *Crash) apply(line string) string {
 	if i := strings.Index(out, " code="); i >= 0 {
 		code = strings.SplitN(out[i+6:], " ", 2)[0]
 	}
+	c.initEnd = repoInitEnd(raw, repo, df)
 	roles := c.roles(op, t[1:], repo, raw, pre, post)
 	trace := canonTrace(raw, roles)
 	c.st.FsOps += len(raw)
@@ -904,6 +928,7 @@ func (c *Crash) checkSnaps(op string, a []string, repo string, lineNo int, pre, 
 	u := c.universe(repo)
 	preHash, postHash := treeHash(pre), treeHash(post)
 	seen := map[string]bool{}
+	initEnd := c.initEnd
 	var preObs, postObs map[string]*repoObs
 	preIssues, postIssues := map[string]bool{}, map[string]bool{}
 	flagged := map[string]bool{}
@@ -957,7 +982,29 @@ func (c *Crash) checkSnaps(op string, a []string, repo string, lineNo int, pre, 
 		}
 		c.st.Recovered++
 		c.st.RecoveredKind[op]++
-		rec := c.observeDir(s.dir, u)
+		var rec map[string]*repoObs
+		if probe := s.pt.K <= initEnd || sampled(hs); probe && h.mon.routable(h, repo) && !*h.conf.Storage.ReadOnly && *h.conf.API.PushEnabled {
+			// continuation probe: the recovered server goes on (a fresh image is pushed), is abandoned, and the directory is
+			// opened once more
+			srv := c.openSrv(s.dir)
+			rec = c.observeSrv(srv, u)
+			c.st.Probes++
+			if s.pt.K <= initEnd {
+				c.st.ProbesInit++
+			}
+			for _, msg := range c.continuation(srv, s.dir, repo, u, preObs, postObs) {
+				name := "C09.ack-lost-after-recovery"
+				if strings.HasPrefix(msg, "load:") {
+					name = "C09.load-error"
+				}
+				if !flagged[name+msg] {
+					flagged[name+msg] = true
+					c.flag(name, fmt.Sprintf("%s: %s; after %s", repo, msg, where))
+				}
+			}
+		} else {
+			rec = c.observeDir(s.dir, u)
+		}
 		for _, r := range u.repos {
 			ro, po, ao := rec[r], preObs[r], postObs[r]
 			for _, e := range ro.errs {
@@ -999,6 +1046,97 @@ func (c *Crash) checkSnaps(op string, a []string, repo string, lineNo int, pre, 
 			}
 		}
 	}
+}
+
+// repoInitEnd: the request starts with the initialisation of the repository (mkdir, oci-layout in place, first index.json):
+// index of its last call in the trace, -1 if the request does not initialise
+func repoInitEnd(raw []string, repo string, df diskFacts) int {
+	if (df.D && df.L && df.I) || len(raw) == 0 {
+		return -1
+	}
+	f0 := strings.Fields(raw[0])
+	if len(f0) < 2 || !(raw[0] == "mkdirall "+repo || f0[0] == "writefile" && f0[1] == repo+"/oci-layout" ||
+		(f0[0] == "createtemp" && f0[1] == repo+"/index.json.#" && !df.I && !(df.D && df.L))) {
+		return -1
+	}
+	end := -1
+	for i, l := range raw {
+		f := strings.Fields(l)
+		if len(f) < 2 {
+			break
+		}
+		if l == "mkdirall "+repo || f[1] == repo+"/oci-layout" || strings.HasPrefix(f[1], repo+"/index.json") {
+			end = i
+			if f[0] == "close" {
+				break
+			}
+			continue
+		}
+		break
+	}
+	return end
+}
+
+// sampled: a deterministic 1-in-25 sample of the crash states (by content, so that a replay probes the same ones)
+func sampled(hash string) bool {
+	n, err := strconv.ParseUint(hash[:6], 16, 32)
+	return err == nil && n%25 == 0
+}
+
+// continuation: the history goes on after the crash-restart.  On the recovered server `srv` a fresh small image is
+// pushed to the addressed repository (monolithic blob upload, manifest by a new tag); the server is abandoned without
+// Close and yet another fresh server is opened on the directory.  Required: both pushes are acknowledged, the
+// repository loads, the blob and the tag just acknowledged are served with their bytes, and everything that was in
+// effect before and after the interrupted request still is.
+func (c *Crash) continuation(srv *olareg.Server, dir, repo string, u *universe, pre, post map[string]*repoObs) []string {
+	var out []string
+	blob := []byte("{\"crash-probe\":true}")
+	bd := digest.FromBytes(blob)
+	man, _ := json.Marshal(types.Manifest{SchemaVersion: 2, MediaType: types.MediaTypeOCI1Manifest,
+		Config: types.Descriptor{MediaType: types.MediaTypeOCI1ImageConfig, Digest: bd, Size: int64(len(blob))},
+		Layers: []types.Descriptor{{MediaType: types.MediaTypeOCI1Layer, Digest: bd, Size: int64(len(blob))}}})
+	md := digest.FromBytes(man)
+	const tag = "zz-crash-probe"
+	st, _, _ := c.serveBody(srv, "POST", "/v2/"+repo+"/blobs/uploads/?digest="+bd.String(), nil, blob)
+	if st != 201 {
+		return []string{fmt.Sprintf("load: the recovered server answers %d to a blob upload", st)}
+	}
+	st, _, _ = c.serveBody(srv, "PUT", "/v2/"+repo+"/manifests/"+tag, map[string][]string{"Content-Type": {types.MediaTypeOCI1Manifest}}, man)
+	if st != 201 {
+		return []string{fmt.Sprintf("load: the recovered server answers %d to a manifest push", st)}
+	}
+	// srv is abandoned (no Close: a second crash right after the acknowledgement)
+	srv2 := c.openSrv(dir)
+	defer srv2.Close()
+	st, _, body := c.serve(srv2, "GET", "/v2/"+repo+"/blobs/"+bd.String(), nil)
+	if st >= 500 {
+		out = append(out, fmt.Sprintf("load: blob read answers %d after the second restart", st))
+	} else if st != 200 || string(body) != string(blob) {
+		out = append(out, fmt.Sprintf("a blob pushed to the recovered repository was acknowledged with 201; after the next restart GET answers %d (%d bytes)", st, len(body)))
+	}
+	st, hd, body := c.serve(srv2, "GET", "/v2/"+repo+"/manifests/"+tag, accAll)
+	if st >= 500 {
+		out = append(out, fmt.Sprintf("load: manifest read answers %d after the second restart", st))
+	} else if st != 200 || string(body) != string(man) || hd.Get("Docker-Content-Digest") != md.String() {
+		out = append(out, fmt.Sprintf("a manifest pushed to the recovered repository under tag %s was acknowledged with 201; after the next restart GET answers %d (%d bytes)", tag, st, len(body)))
+	}
+	obs2 := c.observeSrv(srv2, u)
+	for _, r := range u.repos {
+		for _, e := range obs2[r].errs {
+			if !inList(pre[r].errs, e) && !inList(post[r].errs, e) {
+				out = append(out, "load: "+r+": "+e+" after the second restart")
+			}
+		}
+		for _, l := range c.ackLost(pre[r], post[r], obs2[r]) {
+			if strings.Contains(l, "not after the crash") || strings.Contains(l, "resolved to") {
+				if strings.Contains(l, tag) {
+					continue
+				}
+				out = append(out, r+": after the continuation and a second restart: "+l)
+			}
+		}
+	}
+	return out
 }
 
 func firstDiff(a, b string) string {
